@@ -104,6 +104,46 @@ def run_part(rep, ctx):
     return found
 
 
+def dir_compare(ctx, files, tag='cmpdir'):
+    """files: [(source text, {detector: lines of analyze_for_* on that text})].  The files are written into a directory
+    (every second one into a sub-directory) and analysed by the real analyze_dir of each category.
+    -> (number of comparisons, [(index | None, detector or category, lines recorded by analyze_dir, lines expected)])"""
+    import os, shutil
+    from checks import dir_common as dc
+    root = os.path.join(dc.FSROOT, '%s-%d' % (tag, os.getpid()))
+    shutil.rmtree(root, ignore_errors=True)
+    os.makedirs(os.path.join(root, 'sub'))
+    for i, (src, lines) in enumerate(files):
+        d = root if i % 2 == 0 else os.path.join(root, 'sub')
+        open(os.path.join(d, 'f%04d.sol' % i), 'w', encoding='utf-8', newline='').write(src)
+    hz = dc.Harness(ctx.harness)
+    bad = []
+    n_cmp = 0
+    cats = {'opt': DETS[:23], 'vul': DETS[23:27], 'qa': DETS[27:]}
+    try:
+        for cat, names in cats.items():
+            o = hz.req('dir %s %s %s' % (dc.hx(root), cat, ','.join(names)))
+            listing, impl = dc.parse_dir_output(o)
+            if impl == 'PANIC':
+                bad.append((None, cat, 'PANIC', None))
+                continue
+            got = {}
+            for pat, entries in impl:
+                for fname, ls in entries:
+                    got[(pat, fname.decode())] = ls
+            for i, (src, lines) in enumerate(files):
+                for n in names:
+                    want = lines[n]
+                    have = got.get((n, 'f%04d.sol' % i), [])
+                    n_cmp += 1
+                    if want != have:
+                        bad.append((i, n, have, want))
+    finally:
+        hz.close()
+        shutil.rmtree(root, ignore_errors=True)
+    return n_cmp, bad
+
+
 def dir_level(rep, ctx, out):
     """C02 at the level of a directory run: the lines analyze_dir records for a file are the lines analyze_for_* reports
     for that file alone (which the part above has compared with the specification) - whatever white space the file
